@@ -202,13 +202,13 @@ Qed.
    last DATA frame or on an empty one; and the wire is independent of the dumpers *)
 Theorem h2_send_identity_log i o w ds enc frame frame_fin endstream fs chunks fin_last :
   NoDup (map fst ds) -> In (i, o) ds ->
-  let '(sr, lg) := h2_send ds enc frame frame_fin endstream app_writer [] (mkH23Req fs (Some chunks) fin_last) in
+  let '(sr, lg) := h2_send ds enc frame frame_fin endstream app_writer [] (mkH23Req fs (Some chunks) fin_last false) in
   sr_failed sr = false /\
   content i w lg =
   content i w (run_hooks ds (field_hooks HReqHeader fs ++ map HReqBody (filter nonempty chunks)
                              ++ [HReqBodyEnd sep23])).
 Proof.
-  intros ND HI. unfold h2_send. cbn [g_fields g_body g_fin_last]. unfold app_writer at 1. cbn [app].
+  intros ND HI. unfold h2_send. cbn [g_fields g_body g_fin_last g_aborted]. unfold app_writer at 1. cbn [app].
   pose proof (h2_write_data_app i o w ds frame frame_fin fin_last (enc fs) (h23_header_log ds fs)
                 (filter nonempty chunks) ND HI) as H.
   destruct (h2_write_data ds frame frame_fin fin_last app_writer _ (filter nonempty chunks)) as [[st e] ended].
@@ -222,10 +222,42 @@ Proof.
     cbn [app flat_map]. rewrite !app_nil_r, <- app_assoc. reflexivity.
 Qed.
 
+(* an upload that is abandoned (flow-control wait / body read ended by a response, a reset or a
+   cancellation) before the frame carrying END_STREAM: every (dumper, writer) holds the header
+   lines and exactly the payloads of the DATA frames that were written - what was read from the
+   body but never framed is not dumped, and no separator follows *)
+Lemma h2_write_data_plain_app frame frame_fin s cs :
+  h2_write_data_plain frame frame_fin false app_writer s cs = (s ++ concat (map frame cs), false, false).
+Proof.
+  revert s. induction cs as [|p r IH]; intro s; cbn [h2_write_data_plain map concat andb].
+  - now rewrite app_nil_r.
+  - unfold app_writer at 1. rewrite IH, <- app_assoc. reflexivity.
+Qed.
+
+Theorem h2_send_aborted_log i o w ds enc frame frame_fin endstream fs chunks :
+  NoDup (map fst ds) -> In (i, o) ds ->
+  let '(sr, lg) := h2_send ds enc frame frame_fin endstream app_writer [] (mkH23Req fs (Some chunks) false true) in
+  sr_state sr = enc fs ++ concat (map frame (filter nonempty chunks)) /\
+  content i w lg =
+  content i w (run_hooks ds (field_hooks HReqHeader fs ++ map HReqBody (filter nonempty chunks))).
+Proof.
+  intros ND HI. unfold h2_send. cbn [g_fields g_body g_fin_last g_aborted]. unfold app_writer at 1. cbn [app].
+  pose proof (h2_write_data_app i o w ds frame frame_fin false (enc fs) (h23_header_log ds fs)
+                (filter nonempty chunks) ND HI) as H.
+  pose proof (h2_write_data_transparent ds frame frame_fin false app_writer (enc fs) (h23_header_log ds fs)
+                (filter nonempty chunks)) as T.
+  rewrite h2_write_data_plain_app in T.
+  destruct (h2_write_data ds frame frame_fin false app_writer _ (filter nonempty chunks)) as [[st e] ended].
+  destruct H as [-> [E H]]. cbn [andb] in E. subst ended. cbn [fst snd sr_state].
+  inversion T as [T1]. split; [reflexivity|].
+  unfold h23_header_log in *. rewrite H, !(content_run_hooks i o), !flat_map_app by assumption.
+  cbn [app]. now rewrite app_nil_r.
+Qed.
+
 (* HTTP/3 (repaired): wire = header block ++ body writes; log = field lines, CRLF, each Write,
    and CRLF CRLF iff at least one byte was written *)
 Theorem h3_send_identity_log ds enc fs chunks fl :
-  h3_send ds enc app_writer [] (mkH23Req fs (Some chunks) fl) =
+  h3_send ds enc app_writer [] (mkH23Req fs (Some chunks) fl false) =
   (mkSend (enc fs ++ concat chunks) false false,
    run_hooks ds (field_hooks HReqHeader fs ++ map HReqBody chunks
                  ++ (if Nat.eqb (total_len chunks) 0 then [] else [HReqBodyEnd sep23]))).
@@ -240,9 +272,9 @@ Proof.
 Qed.
 
 (* no body: only the header lines *)
-Theorem h23_send_nobody_log ds enc frame frame_fin endstream fs fl :
-  snd (h2_send ds enc frame frame_fin endstream app_writer [] (mkH23Req fs None fl)) = run_hooks ds (field_hooks HReqHeader fs) /\
-  snd (h3_send ds enc app_writer [] (mkH23Req fs None fl)) = run_hooks ds (field_hooks HReqHeader fs).
+Theorem h23_send_nobody_log ds enc frame frame_fin endstream fs fl ab :
+  snd (h2_send ds enc frame frame_fin endstream app_writer [] (mkH23Req fs None fl ab)) = run_hooks ds (field_hooks HReqHeader fs) /\
+  snd (h3_send ds enc app_writer [] (mkH23Req fs None fl ab)) = run_hooks ds (field_hooks HReqHeader fs).
 Proof. split; reflexivity. Qed.
 
 (* ---------- response side: what each (dumper, writer) receives ---------- *)
